@@ -1,7 +1,13 @@
-(* Deploy/Inductive.v — an inductive invariant over ALL executions (unbounded number of requests, operations,
-   suspensions and scheduling choices) for the deploy-only fragment on one eager, non-wrapper, never-failing
-   deployment: every request is a list of deploy(d0) operations.  return_after holds in every reachable
-   state.  Restricted program shape: no undeploy, no lazy FutureConnector, no failure, no wraps chain. *)
+(* Deploy/Inductive.v — UNFINISHED groundwork for an inductive invariant over ALL executions (unbounded number
+   of requests, operations, suspensions and scheduling choices) of the deploy-only fragment on one eager,
+   non-wrapper, never-failing deployment.  This file contains: the invariant [INV] (heap facts H1/A2/A3/A4, the
+   admissible stack shapes of a task with the heap facts each transient shape relies on, the log checker
+   [ra_all] with [ra_all_ok : ra_all l = true -> ra_ok reqs l = true]), and the lemmas that are independent of
+   [micro] (tasks that are not running only depend on deployments_map; waking preserves the shapes; replacing
+   the running task in the table).  NOT proved here: preservation of [INV] by each case of [micro], hence no
+   statement about executions follows from this file yet, and nothing in Props/ depends on it.  The plan of
+   the remaining proof (and its extension to undeploy: deployer uniqueness, captured events are stale) is in
+   design/notes/C26.md. *)
 From Coq Require Import List Bool Arith Lia.
 From SF Require Import Deploy.Model Deploy.Proofs.
 Import ListNotations.
@@ -11,8 +17,8 @@ Lemma nth_error_nth_upd : forall A (f : A -> A) l i j,
   nth_error (nth_upd i f l) j = if i =? j then option_map f (nth_error l j) else nth_error l j.
 Proof.
   induction l as [|x l IH]; intros i j.
-  - simpl. destruct j; simpl; destruct (i =? _); reflexivity.
-  - destruct i; destruct j; simpl; auto. apply IH.
+  - destruct i; destruct j; simpl; try reflexivity; destruct (i =? j); reflexivity.
+  - destruct i; destruct j; simpl; auto.
 Qed.
 Lemma alookup_aset_same : forall A k (v : A) l, alookup k (aset k v l) = Some v.
 Proof.
@@ -122,11 +128,11 @@ Lemma T_upd : forall s s' tid t (f : task -> task) ts',
   (forall j, nth_error ts' j = if tid =? j then Some (f t) else nth_error (tasks s) j) ->
   forall j t', nth_error ts' j = Some t' -> (tw t' <> WRun \/ Some tid = Some j) -> task_ok s' t'.
 Proof.
-  intros s s' tid t f ts' HT Ht Ho Hf Hn j t' Hj Hc. rewrite Hn in Hj.
+  intros s s' tid t f ts' HT Ht Ho Hft Hn j t' Hj Hc. rewrite Hn in Hj.
   destruct (tid =? j) eqn:E.
   - inversion Hj; subst; auto.
   - apply Nat.eqb_neq in E. destruct Hc as [Hc|Hc]; [|inversion Hc; congruence].
-    apply Ho; auto.
+    apply Ho; auto. apply (HT j); auto.
 Qed.
 
 End OneEager.
